@@ -87,6 +87,9 @@ CORE_OPS = CHOOSE_OPS | {('tensordot', 'labels'), ('outer', 'd'), ('conj', 'd'),
                          ('split_legs', 'unsorted'), ('getitem', 'negstep'), ('setitem', 'slice_npc'), ('sort_legcharge', 'default'),
                          ('concatenate', 'axis0'), ('gauge_total_charge', 'flip'), ('qr', 'complete_qconj'), ('svd', 'qtotal_LR'), ('squeeze', 'none'), ('extend', 'leg'), ('add_trivial_leg', 'front'),
                          ('permute', 'first'), ('scale_axis', 'first'), ('drop_charge', 'last'), ('from_ndarray', 'roundtrip'), ('copy', 'shallow')}
+MIXED_OPS = [('outer', 'd'), ('tensordot', 'axes0'), ('tensordot', 'int1'), ('tensordot', 'full'), ('inner', 'range'), ('add', 'same'), ('sub', 'permuted'),
+             ('binary_blockwise', 'subtract'), ('iadd_prefactor_other', 'same'), ('concatenate', 'axis0'), ('grid_outer', 'qtotal_detected'),
+             ('setitem', 'slice_npc')]
 PROJ_OPS = [('iproject', 'mask'), ('getitem', 'mask')]
 QUICK_CONSUMERS = ('add', 'tensordot', 'sort_legcharge', 'legsort')
 ALL_CONSUMERS = ('add', 'radd', 'tensordot', 'inner', 'sort_legcharge', 'legsort')
@@ -157,6 +160,20 @@ def CASES(tier, seed):
         cases.append(dict(name=f"A3[mod=[1],three-block leg,all,sorted,flags=computed,opt=0]ops{ci}:{o[0]}/{o[1]}", fn='inv_case',
                           params=dict(struct=st3, ops=[o], cplx=False, consume=['legsort', 'sort_legcharge'], **dict(c_all, prestate='sorted', opt_level=0)),
                           opts=OA))
+    # pre-states in which exactly one operand has its blocks in non-sorted order (flag truthfully False), the other one sorted:
+    # every operation with two or more tensor operands, both ways round, followed by the + consumer
+    stm = structsA[0]
+    for ps in ('reversed_first', 'reversed_others'):
+        for ci, chunk in enumerate(P1._chunks([o for o in MIXED_OPS if quick or True], 2 if quick else 1)):
+            cases.append(dict(name=f"A-mixed[mod={stm['mods']},all,{ps},flags=computed,opt=1]ops{ci}:{P1._opsname(chunk)}", fn='inv_case',
+                              params=dict(struct=stm, ops=chunk, cplx=False, consume=['add', 'radd'], **dict(c_all, prestate=ps)), opts=OA))
+    sBm = P1.structs_B(tier, seed)
+    for si in ([1, 2, 8] if quick else [k for k in range(len(sBm)) if sBm[k]['rank'] <= 3 and P1.dense_size(sBm[k]) <= 40]):
+        for ps in ('reversed_first', 'reversed_others'):
+            cases.append(dict(name=f"B-mixed[{si},mod={sBm[si]['mods']},rank={sBm[si]['rank']},all,{ps}]ops:{P1._opsname(MIXED_OPS)}", fn='inv_case',
+                              params=dict(struct=sBm[si], ops=MIXED_OPS, cplx=(si % 2 == 1), subset='all', prestate=ps, legflags='computed', opt_level=1,
+                                          consume=['add', 'radd']), opts=dict(max_paths=40000, max_wall_s=220 if quick else 1600, validate_paths=2,
+                                                                              hard_timeout_s=235 if quick else 1750)))
     OB = dict(max_paths=40000, max_wall_s=220 if quick else 1600, validate_paths=2, hard_timeout_s=235 if quick else 1750)
     for si, st in enumerate(P1.structs_B(tier, seed)):
         if (quick and si in (3, 4, 5, 6)) or st['rank'] > 3 or P1.dense_size(st) > 64:
